@@ -1097,6 +1097,8 @@ def fromFunction(func, interface=None, imlevel=0, name=None):
     method = Method(name, func.__doc__)
     defaults = getattr(func, '__defaults__', None) or ()
     code = func.__code__
+    # The implied leading argument(s) may have been absorbed by ``*args``.
+    imlevel = min(imlevel, code.co_argcount)
     # Number of positional arguments
     na = code.co_argcount - imlevel
     names = code.co_varnames[imlevel:]
